@@ -78,6 +78,15 @@ ATTR_HINTS = {
     'request': 'message.Message',            # IkeSa.request
 }
 
+# names bound to ipaddress network/address objects (parameters fed from ip_network()/get_network())
+LIBOBJ_NAME_HINTS = {
+    'subnet': 'ipaddress.network',          # TrafficSelector.from_network(subnet, ...)
+    'network': 'ipaddress.network',         # TrafficSelector.get_network
+    'src_selector': 'ipaddress.network',    # Xfrm.create_sa / create_policy
+    'dst_selector': 'ipaddress.network',
+    'ip_addr': 'ipaddress.address',         # XfrmAddress.from_ipaddr
+}
+
 LIST_ATTR_HINTS = {
     'proposals': 'message.Proposal',          # PayloadSA.proposals
     'traffic_selectors': 'message.TrafficSelector',   # PayloadTS.traffic_selectors
@@ -289,6 +298,8 @@ class Resolver:
                     return {('mod', imp[1] + '.' + imp[2])}
             if e.id in NAME_HINTS and self._cls(NAME_HINTS[e.id]):
                 return {self._cls(NAME_HINTS[e.id])}
+            if e.id in LIBOBJ_NAME_HINTS:
+                return {('libobj', LIBOBJ_NAME_HINTS[e.id])}
             return out
         if isinstance(e, ast.Attribute):
             c = p.resolve_class_expr(e, fi.module, fi.cls) if fi is not None and attr_chain(e) else None
